@@ -421,6 +421,61 @@ func runRest(c Case) (out Out) {
 	return out
 }
 
+// runLockProbe (translator's behavioural fallback, tools/c04consts.py): does the timeout writer's Flush
+// run under the mutex the timeout branch takes?  The real writer stalls inside the Write that Flush
+// makes; the request is cancelled meanwhile; with the mutex held ServeHTTP cannot answer before the
+// stall is lifted.  "locked" errs towards true on a slow machine (never a false alarm).
+func runLockProbe(id int) map[string]any {
+	var sret atomic.Bool
+	rw := newRecw(nil, &sret)
+	rw.stall, rw.stalled = make(chan struct{}), make(chan struct{})
+	rw.sgid = -1
+	parent, cancel := context.WithCancel(context.Background())
+	defer cancel()
+	work := http.HandlerFunc(func(w http.ResponseWriter, r *http.Request) {
+		w.Write([]byte{200})
+		if f, ok := w.(http.Flusher); ok {
+			f.Flush()
+		}
+	})
+	h := handler.TimeoutHandler(time.Hour)(work)
+	req, _ := http.NewRequestWithContext(parent, http.MethodGet, "http://localhost/x", http.NoBody)
+	ret := make(chan struct{})
+	go func() {
+		defer func() {
+			recover()
+			close(ret)
+		}()
+		h.ServeHTTP(recwF{rw}, req)
+	}()
+	res := map[string]any{"id": id, "kind": "lockprobe"}
+	select {
+	case <-rw.stalled:
+	case <-ret:
+		res["err"] = "the handler's Flush never wrote to the real writer"
+		return res
+	case <-time.After(5 * time.Second):
+		res["err"] = "the handler's Flush never wrote to the real writer"
+		return res
+	}
+	cancel()
+	during := false
+	select {
+	case <-ret:
+		during = true
+	case <-time.After(300 * time.Millisecond):
+	}
+	close(rw.stall)
+	select {
+	case <-ret:
+	case <-time.After(5 * time.Second):
+		res["err"] = "ServeHTTP did not return after the stall was lifted"
+		return res
+	}
+	res["locked"] = !during
+	return res
+}
+
 // errID identifies what a wrapper returned BY IDENTITY: nil, context.DeadlineExceeded,
 // context.Canceled, one of the work's own errors "e<N>"; anything else (a custom cancel
 // cause, a wrapped context error, ...) is -99 and belongs to no allowed result.
@@ -491,6 +546,8 @@ func main() {
 			} else {
 				w.Put(runFree(c))
 			}
+		case "lockprobe":
+			w.Put(runLockProbe(k.ID))
 		case "seq":
 			var c SeqCase
 			if err := json.Unmarshal(raw, &c); err != nil {
